@@ -175,12 +175,10 @@ def coq_eval_codes(pid: str, exprs: list[str], shard=250, workers=14, imports="E
     """Evaluate Coq expressions of type nat by vm_compute (0 = agrees, 1 = disagrees,
     2 = outside the model's domain).  Returns ({index: code} for non-zero codes, error text or None)."""
     BUILD.mkdir(parents=True, exist_ok=True)
-    for old in BUILD.glob(f"cases_{pid}_*"):
-        old.unlink()
     files = []
     for s in range(0, len(exprs), shard):
         chunk = exprs[s:s + shard]
-        name = f"cases_{pid}_{s // shard}"
+        name = f"cases_{pid}_{os.getpid()}_{s // shard}"
         body = [f"From Dyce Require Import {imports}.", "Import ListNotations.", "Open Scope Z_scope.",
                 "Definition cases : list nat := ["]
         body.append(";\n".join(chunk))
@@ -210,7 +208,7 @@ def coq_eval_codes(pid: str, exprs: list[str], shard=250, workers=14, imports="E
                 for i, c in pairs:
                     codes[s + i] = c
     for _, p in files:
-        for ext in (".vo", ".vok", ".vos", ".glob"):
+        for ext in (".vo", ".vok", ".vos", ".glob") + ((".v",) if not errors else ()):
             q = p.with_suffix(ext)
             if q.exists():
                 q.unlink()
@@ -259,8 +257,8 @@ def impl_env(extra=None):
 def run_impl(pid: str, cases: list, extra_env=None, timeout=1500, tag=""):
     """Run the property's impl adapter over all cases in ONE fresh interpreter."""
     BUILD.mkdir(parents=True, exist_ok=True)
-    cin = BUILD / f"impl_{pid}{tag}_in.json"
-    cout = BUILD / f"impl_{pid}{tag}_out.json"
+    cin = BUILD / f"impl_{pid}{tag}_{os.getpid()}_in.json"
+    cout = BUILD / f"impl_{pid}{tag}_{os.getpid()}_out.json"
     cin.write_text(json.dumps(cases))
     if cout.exists():
         cout.unlink()
